@@ -194,4 +194,7 @@ def resolve(fn, o, defs=None, depth=0):
         return ("place", p)
     if r["op"] == "use":
         return resolve(fn, r["x"], defs, depth + 1)
+    if r["op"] == "ref" and r["p"]["pj"] == ["deref"]:
+        # reborrow `&*x`: same referent as x
+        return resolve(fn, {"cp": {"l": r["p"]["l"], "pj": []}}, defs, depth + 1)
     return ("rv", r)
